@@ -585,7 +585,11 @@ func (r *c04Run) extract(in rows) {
 	if cs.Flag {
 		strand = "\t-" // minus-strand feature: the concatenated blocks are reverse-complemented as a whole
 	}
-	lines := strings.Join(starts, ",") + "\t" + strings.Join(ends, ",") + "\tx" + strand + "\n"
+	fname := "x"
+	if cs.Build == "blank-name" && !cs.Flag {
+		fname = "x y" // the columns are separated by tabs: a blank belongs to the name
+	}
+	lines := strings.Join(starts, ",") + "\t" + strings.Join(ends, ",") + "\t" + fname + strand + "\n"
 	if cs.Build == "after-minus" && !cs.Flag {
 		// the judged feature (three columns: no strand given, so the forward one) follows a feature of the minus
 		// strand and precedes one whose strand is given as +
@@ -595,6 +599,7 @@ func (r *c04Run) extract(in rows) {
 		return
 	}
 	os.Remove(r.path("x.fa"))
+	os.Remove(r.path(fname + ".fa"))
 	args := []string{"extract", "-i", r.path("in.fa"), "-o", r.dir, "--coordinates", r.path("coords.txt")}
 	limit, limitName := L, "L"
 	var u []int
@@ -635,7 +640,7 @@ func (r *c04Run) extract(in rows) {
 	}
 	if class != "" {
 		if err == nil {
-			b, _ := os.ReadFile(r.path("x.fa"))
+			b, _ := os.ReadFile(r.path(fname + ".fa"))
 			r.k.viol(r.op, "out-of-range-accepted/"+class, fmt.Sprintf("the command succeeded (output %q) although a block is out of range (%s)", b, class))
 		} else {
 			r.k.c.Outcome("cli-extract:rejected:" + class)
@@ -657,7 +662,7 @@ func (r *c04Run) extract(in rows) {
 			want[i].Seq = refRevComp(want[i].Seq)
 		}
 	}
-	if r.output("x.fa", want) >= 0 {
+	if r.output(fname+".fa", want) >= 0 {
 		if cs.Flag {
 			r.k.c.Outcome(fmt.Sprintf("cli-extract:ok:minus-strand:%d-blocks", nb))
 		}
@@ -709,6 +714,7 @@ func c04RunCLIAll(maxList int) func(c *mc.Ctx, seqs []string) {
 					c04Check(c, c04Case{Op: "cli-extract", Seqs: seqs, Sites: []int{s, e}, Ref: ref})
 					if ref == "" && 0 <= s && s < e && e <= L {
 						c04Check(c, c04Case{Op: "cli-extract", Seqs: seqs, Sites: []int{s, e}, Build: "after-minus"})
+						c04Check(c, c04Case{Op: "cli-extract", Seqs: seqs, Sites: []int{s, e}, Build: "blank-name"})
 					}
 					if 0 <= s && s < e && e <= L {
 						c04Check(c, c04Case{Op: "cli-extract", Seqs: seqs, Sites: []int{s, e}, Ref: ref, Flag: true})
